@@ -50,3 +50,14 @@ def bytes_of(b):
 
 def unreachable():
     raise AssertionError("spec: unreachable")
+
+
+def require(cond, what="pre"):
+    """callee precondition (proved at call sites by the engine; asserted natively)"""
+    if not cond:
+        raise AssertionError("callee precondition violated: " + what)
+
+
+def assume(cond):
+    """assume-post of an abstracted callee: meaningless natively (the real callee runs)"""
+    return None
